@@ -171,6 +171,13 @@ func namesFromKey(parts sortref.SplitKey, aschema *AnalyzedSchema, operations ma
 		startIndex = len(baseNames) + 1
 	}
 
+	if len(baseNames) == 0 {
+		// nothing to derive a name from, e.g. the parameters of a path item that declares no operation:
+		// name the schema after the parts of its pointer rather than leaving it anonymous
+		baseNames = [][]string{parts}
+		startIndex = len(parts)
+	}
+
 	result := make([]string, 0, len(baseNames))
 	for _, segments := range baseNames {
 		nm := parts.BuildName(segments, startIndex, partAdder(aschema))
